@@ -16,8 +16,12 @@ def after_async(tier):
     os.makedirs(vlib.BUILD, exist_ok=True)
     open(p, "w").write("\n".join(hs) + "\n")
     b = 2 if tier == "quick" else 3
-    return [{"scenario": "c04xh", "hists-file": p, "bound": b, "glib": 1, "_shards": len(hs), "_nhist": len(hs)},
-            {"scenario": "c04xl", "hists-file": p, "bound": b - 1, "glib": 0, "_shards": len(hs), "_nhist": len(hs)}]
+    out = []
+    for h in hs:          # one exploration per history, each sharded over all cores
+        parts = h.split()
+        out.append({"scenario": "c04xh", "hist": parts[0], "racer-at": int(parts[1]), "racer": int(parts[2]), "bound": b, "glib": 1})
+    out.append({"scenario": "c04xl", "hists-file": p, "bound": b - 1, "glib": 0, "_shards": len(hs), "_nhist": len(hs)})
+    return out
 
 
 def run(tier):
